@@ -59,7 +59,7 @@ def hexN (k n : Nat) : Txt := (List.range k).reverse.flatMap fun i => [(hex2 (n 
 def isPrint (r : Nat) : Bool :=
   if r < 0x80 then 0x20 ≤ r && r < 0x7F
   else if r < 0x100 then 0xA1 ≤ r && r != 0xAD
-  else !(isSpace r) && r != runeError && !(0xD800 ≤ r && r ≤ 0xDFFF) && !(0xE000 ≤ r && r ≤ 0xF8FF)
+  else !(isSpace r) && !(0xD800 ≤ r && r ≤ 0xDFFF) && !(0xE000 ≤ r && r ≤ 0xF8FF)
     && r != 0xFEFF && !(0x200B ≤ r && r ≤ 0x200F) && !(0x202A ≤ r && r ≤ 0x202E) && !(0x2060 ≤ r && r ≤ 0x206F)
 
 /-- strconv.Quote -/
